@@ -57,6 +57,7 @@ draw_prim! {
     [u8; 4] => |g| [g.byte(), g.byte(), g.byte(), g.byte()];
     minicbor::bytes::ByteVec => |g| minicbor::bytes::ByteVec::from(g.bytes(40));
     NilU32 => |g| NilU32(if g.chance(100) { None } else { Some(g.u32()) });
+    OwnNil => |g| OwnNil(if g.chance(100) { None } else { Some(g.u32()) });
     NilStr => |g| NilStr(if g.chance(100) { String::new() } else { let s = g.string(12); if s.is_empty() { "x".into() } else { s } });
 }
 impl<'a> Draw<'a> for &'a str { fn draw(g: &mut Gen, ar: &'a Arena, _: &mut Presence) -> Self { ar.str(g.string(30)) } }
@@ -83,8 +84,29 @@ pub trait Derived<'a>: Sized {
 }
 
 /// The type parameter of generic structs.
-pub trait ParamModel<'a>: Draw<'a> { fn pmodel(&self, fr: &mut Fr) -> Item; fn psame(&self, o: &Self) -> bool; }
-impl<'a> ParamModel<'a> for u16 { fn pmodel(&self, fr: &mut Fr) -> Item { fr.uint(*self as u64) } fn psame(&self, o: &Self) -> bool { self == o } }
+pub trait ParamModel<'a>: Draw<'a> {
+    /// can a value of this type be nil (absent)? Decides whether the field may be missing from the input.
+    const NILABLE: bool;
+    fn pmodel(&self, fr: &mut Fr) -> Item;
+    fn psame(&self, o: &Self) -> bool;
+    fn pnil(&self) -> bool;
+    fn pmval(&self) -> MVal;
+}
+impl<'a> ParamModel<'a> for u16 {
+    const NILABLE: bool = false;
+    fn pmodel(&self, fr: &mut Fr) -> Item { fr.uint(*self as u64) }
+    fn psame(&self, o: &Self) -> bool { self == o }
+    fn pnil(&self) -> bool { false }
+    fn pmval(&self) -> MVal { MVal::Leaf(Item::UInt(*self as u64, W::min_for(*self as u64)).encode()) }
+}
+/// The parameter instantiated with an `Option`: nil-capable through `Encode::is_nil` / `Decode::nil` only.
+impl<'a> ParamModel<'a> for Option<u16> {
+    const NILABLE: bool = true;
+    fn pmodel(&self, fr: &mut Fr) -> Item { match self { None => Item::Null, Some(n) => fr.uint(*n as u64) } }
+    fn psame(&self, o: &Self) -> bool { self == o }
+    fn pnil(&self) -> bool { self.is_none() }
+    fn pmval(&self) -> MVal { match self { None => MVal::None, Some(n) => MVal::Leaf(Item::UInt(*n as u64, W::min_for(*n as u64)).encode()) } }
+}
 
 // ---- framing context ----------------------------------------------------------------------------
 
@@ -240,3 +262,21 @@ pub mod nil_str {
     pub fn nil() -> Option<NilStr> { Some(NilStr(String::new())) }
     pub fn cbor_len<C>(v: &NilStr, ctx: &mut C) -> usize { if v.0.is_empty() { 1 } else { minicbor::CborLen::cbor_len(v.0.as_str(), ctx) } }
 }
+
+/// A user type that is nil-capable through the trait methods alone: `Encode::is_nil` and `Decode::nil` are
+/// overridden, no field attribute is involved.
+#[derive(Debug, Clone, PartialEq, Default)]
+pub struct OwnNil(pub Option<u32>);
+impl<C> minicbor::Encode<C> for OwnNil {
+    fn encode<W: minicbor::encode::Write>(&self, e: &mut minicbor::Encoder<W>, _: &mut C) -> Result<(), minicbor::encode::Error<W::Error>> { match self.0 { None => e.null()?.ok(), Some(n) => e.u32(n)?.ok() } }
+    fn is_nil(&self) -> bool { self.0.is_none() }
+}
+impl<'b, C> minicbor::Decode<'b, C> for OwnNil {
+    fn decode(d: &mut minicbor::Decoder<'b>, _: &mut C) -> Result<Self, minicbor::decode::Error> { if d.datatype()? == minicbor::data::Type::Null { d.null()?; Ok(OwnNil(None)) } else { Ok(OwnNil(Some(d.u32()?))) } }
+    fn nil() -> Option<Self> { Some(OwnNil(None)) }
+}
+impl<C> minicbor::CborLen<C> for OwnNil { fn cbor_len(&self, ctx: &mut C) -> usize { match self.0 { None => 1, Some(n) => minicbor::CborLen::cbor_len(&n, ctx) } } }
+
+/// A type alias hides the `Option` from the derive macros: nil handling has to come from the trait methods.
+pub type OptU8 = Option<u8>;
+pub fn draw_opt_alias(g: &mut Gen) -> OptU8 { if g.chance(100) { None } else { Some(g.u8()) } }
